@@ -12,8 +12,8 @@ from harness import mdibkit as k  # noqa: E402
 CA = pm_types.ContextAssociation
 
 
-def _prov(dv, sv, mv, target, two_mds):
-    pm, cap = k.mk_provider(mv, two_mds=two_mds, operations=True)
+def _prov(dv, sv, mv, target, two_mds, rt=False):
+    pm, cap = k.mk_provider(mv, two_mds=two_mds, operations=True, rt=rt)
     d = pm.descriptions.handle.get_one(target)
     d.DescriptorVersion = dv
     st = pm.states.descriptor_handle.get_one(target, allow_none=True)
@@ -131,10 +131,12 @@ def state_report(kind: int, dv: int, sv: int, mv: int, val: str, flag: bool) -> 
 def description_report(kind: int, dv: int, sv: int, mv: int, pdv: int, val: str) -> str:
     """
     One descriptor transaction (0 update m0 + its state, 1 create m9 + state, 2 delete m1, 3 delete subtree vmd0,
-    4 create in the second MDS, 5 delete child m1 and then its parent ch0 explicitly, child first): the DescriptionModificationReport carries the committed version group, one part per changed
+    4 create in the second MDS, 5 delete child m1 and then its parent ch0 explicitly, child first, 6 update of a real-time
+    sample array descriptor (its state is re-versioned: the transaction result has rt updates), 7 the same together with an
+    update of m0, 8 update of an alert condition and of a context descriptor in one transaction): the DescriptionModificationReport carries the committed version group, one part per changed
     descriptor with the right modification type, parent, source MDS, committed DescriptorVersion, and the related states;
     the state reports sent along carry the same version.
-    pre: 0 <= kind <= 5
+    pre: 0 <= kind <= 8
     pre: dv >= 0
     pre: sv >= 0
     pre: mv >= 0
@@ -146,7 +148,7 @@ def description_report(kind: int, dv: int, sv: int, mv: int, pdv: int, val: str)
     try:
         from sdc11073.xml_types import msg_types
         dmt = msg_types.DescriptionModificationType
-        pm, cap = _prov(dv, sv, mv, 'm0', two_mds=(kind == 4))
+        pm, cap = _prov(dv, sv, mv, 'm0', two_mds=(kind == 4), rt=kind in (6, 7))
         par = pm.descriptions.handle.get_one('ch0')
         par.DescriptorVersion = pdv
         pm.states.descriptor_handle.get_one('ch0').DescriptorVersion = pdv
@@ -178,6 +180,21 @@ def description_report(kind: int, dv: int, sv: int, mv: int, pdv: int, val: str)
                 for h, p in (('m0', 'ch0'), ('m1', 'ch0'), ('ch0', 'vmd0'), ('vmd0', 'mds0')):
                     exp[h] = (dmt.DELETE, p, 'mds0', None, 0)
                 exp['mds0'] = (dmt.UPDATE, None, 'mds0', 1, 1)
+            elif kind in (6, 7):
+                d = tr.get_descriptor('rt0')
+                d.SafetyClassification = pm_types.SafetyClassification.MED_A
+                exp['rt0'] = (dmt.UPDATE, 'ch0', 'mds0', 1, 1)
+                if kind == 7:
+                    d = tr.get_descriptor('m0')
+                    d.Type = pm_types.CodedValue(val or 'c')
+                    exp['m0'] = (dmt.UPDATE, 'ch0', 'mds0', dv + 1, 1)
+            elif kind == 8:
+                d = tr.get_descriptor('ac0')
+                d.SafetyClassification = pm_types.SafetyClassification.MED_A
+                d = tr.get_descriptor('lc0')
+                d.SafetyClassification = pm_types.SafetyClassification.MED_B
+                exp['ac0'] = (dmt.UPDATE, 'as0', 'mds0', 1, 1)
+                exp['lc0'] = (dmt.UPDATE, 'sc0', 'mds0', 1, 1)
             else:
                 tr.remove_descriptor('m1')
                 tr.remove_descriptor('ch0')
@@ -212,6 +229,17 @@ def description_report(kind: int, dv: int, sv: int, mv: int, pdv: int, val: str)
                 orc.check(g[4] == e[4], 'related-states-missing-or-extra-in-report-part')
         for payload2, action2, vg2 in cap.sent[1:]:
             orc.check(payload2.MdibVersion == mv + 1 and vg2.mdib_version == mv + 1, 'state-report-of-descriptor-transaction-has-other-version')
+        # every state the transaction changed is in the description report part of its descriptor or in a state report
+        reported = set()
+        for payload2, _action2, _vg2 in cap.sent:
+            if not hasattr(payload2, 'ReportPart'):        # WaveformStream
+                reported.update(st.DescriptorHandle for st in payload2.State)
+                continue
+            for part in payload2.ReportPart:
+                for st in (part.State if hasattr(part, 'Descriptor') else part.values_list):
+                    reported.add(st.Handle if st.is_context_state else st.DescriptorHandle)
+        for st in pm.transaction.all_states():
+            orc.check((st.Handle if st.is_context_state else st.DescriptorHandle) in reported, 'changed-state-in-no-report')
     except Exception as ex:  # noqa: BLE001
         return exc_result(orc, ex)
     return orc.result()
